@@ -104,6 +104,7 @@ def requirements(tier):
         "dir:backward": 10 * k, "dir:forward": 30 * k,
         "iteration:reused-listeners": 60 * k,
         "iteration:second-orbit": 20 * k,
+        "iteration:starts-from-event-state": 10 * k,
         "first-step-prev-checked": 100 * k,
         "step:multi-event": 20 * k,
         "step:multi-event-backward": 3 * k,
@@ -944,6 +945,46 @@ def run_case(ctx, job, idx, rng, st):
                        dict(env4.witness, first=ev1[:40], repeat=ev4[:40], listeners=[s.descr() for s in specs]),
                        "the same iteration with the same (meanwhile re-used) listener objects produced other events")
             ctx.count("differential:repeat")
+
+    # ------------------------------------------------------------------ iteration 5: starts from a state that carries an event
+    # (a state taken out of an earlier stream is the natural start of the next search: "from the last AOS on ...")
+    evs1 = [x for x in stream1 if getattr(x, "event", None) is not None]
+    if base_prop in ("Kepler", "J2") and prop != "Ephem" and evs1:
+        from beyond.propagators import get_propagator
+
+        ev0 = rng.choice(evs1)
+        start5 = ev0.copy()
+        if not hasattr(start5, "iter"):
+            start5 = start5.as_orbit(get_propagator(base_prop)())
+        elif rng.random() < 0.5:
+            start5.propagator = get_propagator(base_prop)()
+        ctx.expect(start5.event is not None, "C10/harness-start-state-lost-its-event", {}, "harness: the copy of an event state carries no event")
+        n5 = rng.randint(20, 50)
+        dir5 = rng.choice([1, 1, -1])
+        env5 = Env(st, frame_name(start5.frame), d0, dir5,
+                   {"iteration": "5:starts-from-an-event-bearing-state", "prop": base_prop, "propagator": pd, "orbit": oc, "cart0": cart,
+                    "epoch": str(dt), "start_state": {"date": str(start5.date), "event": str(ev0.event.info), "form": start5.form.name,
+                                                      "frame": frame_name(start5.frame)},
+                    "frame0": frame_name(start5.frame), "step_s": step, "span_s": step * n5, "direction": dir5,
+                    "call": "ev = <event state of iteration 1>.copy(); ev.iter(stop=timedelta(+-span), step=timedelta(+-step), listeners=same)"})
+        st["log"].clear()
+        try:
+            stream5 = list(start5.iter(stop=timedelta(seconds=dir5 * step * n5), step=timedelta(seconds=dir5 * step), listeners=listeners))
+        except Exception as exc:
+            lib_exception(ctx, f"C10/iteration-raises-{base_prop}", env5, exc, "iteration started from an event-bearing state")
+            stream5 = None
+        log5 = list(st["log"])
+        st["log"].clear()
+        if stream5 is not None:
+            ctx.count("dir:forward" if dir5 > 0 else "dir:backward")
+            ctx.count("iteration:reused-listeners")
+            ctx.count("iteration:starts-from-event-state")
+            stale = [str(x.date) for (x, rec) in zip(stream5, [None] * len(stream5))
+                     if getattr(x, "event", None) is not None and x.event is ev0.event]
+            ctx.expect(not stale, "C10/samples-carry-the-event-of-the-start-state",
+                       dict(env5.witness, n_stale=len(stale), first=stale[:5], n_stream=len(stream5)),
+                       f"{len(stale)} of {len(stream5)} elements of a stream started from an event state carry that state's event object")
+            check_stream(ctx, st, env5, stream5, log5, specs, stats)
 
     # ------------------------------------------------------------------ station.visibility stream
     stations = [s.topo for s in specs if s.topo is not None]
